@@ -6,13 +6,12 @@ standard_povmt.py:107-161 and the statistics helpers of quara/data_analysis/data
 
 The model mirrors the code as it is:
 * `covMat`                = `calc_covariance_mat` / `calc_covariance_matrix_of_prob_dist`  (`(diag q − q qᵀ)/n`);
-* `dsCheck`/`directSum`   = `calc_direct_sum`: zero matrix of size Σ rows, blocks copied at the running index;
-  the code's squareness test compares `shape[0]` with itself, so a `k×1` block is accepted and broadcast,
-  any other non-square block ends in numpy's broadcast error (mirrored);
+* `dsCheck`/`directSum`   = `calc_direct_sum`: every block must be square (`ValueError` otherwise), zero matrix
+  of size Σ rows, blocks copied at the running index;
 * `conjugate`             = `calc_conjugate` (`(x @ v) @ x.T`);
 * `leftInv`               = `calc_left_inv` with `rank` and `pinv(AᵀA)` as parameters (numpy kernels);
 * `replaceProbDist`, `validate`, `fisher`, `fisherTotal` = the functions of the same name, including
-  `matrix_size = prob_dists[0].shape[0]` of `calc_fisher_matrix_total` (outcome count used as matrix size);
+  `matrix_size = len(grad_prob_dists[0][0])` of `calc_fisher_matrix_total` (number of variables);
 * `se`, `mseProbDists`    = `calc_se`, `calc_mse_prob_dists` (mean and *variance* with ddof = 1; the square
   root is taken by the harness);
 * `mseLinearVar`, `mseLinearPovmQop`, `mseEmpi`, `fisherQt`, `crb`, `crbPovm` = the StandardQTomography
@@ -56,22 +55,19 @@ abbrev RBlock (K : Type) := (k : Nat) × (l : Nat) × Mat K k l
 
 inductive Err
   | negative | sumNotOne | sizeMismatch | epsNonPos | broadcast | rank | weightNeg | empty
-  | ragged | shape
+  | ragged | shape | nonSquare
 deriving Repr, DecidableEq
 
 def Err.toString : Err → String
   | .negative => "negative" | .sumNotOne => "sumNotOne" | .sizeMismatch => "sizeMismatch"
   | .epsNonPos => "epsNonPos" | .broadcast => "broadcast" | .rank => "rank"
   | .weightNeg => "weightNeg" | .empty => "empty" | .ragged => "ragged" | .shape => "shape"
+  | .nonSquare => "nonSquare"
 
-/-- what the slice assignment of `calc_direct_sum` does with one 2-d block: a square block is copied,
-a `k×1` block is broadcast along the columns (the squareness test of the code is vacuous),
-everything else is numpy's broadcast `ValueError`. -/
+/-- the validation loop of `calc_direct_sum` on one 2-d block: `shape[0] != shape[1]` ⇒ `ValueError`. -/
 def dsCheckOne : RBlock K → Except Err (Block K)
   | ⟨k, l, B⟩ =>
-    if h : l = k then .ok ⟨k, h ▸ B⟩
-    else if h1 : l = 1 then .ok ⟨k, Mat.ofFn fun i _ => B.get i ⟨0, by omega⟩⟩
-    else .error .broadcast
+    if h : l = k then .ok ⟨k, h ▸ B⟩ else .error .nonSquare
 
 def dsCheck (bs : List (RBlock K)) : Except Err (List (Block K)) := bs.mapM dsCheckOne
 
@@ -146,28 +142,33 @@ def accumulate (size : Nat) (acc : List (List K)) (w : K) (sv : Nat) (F : List (
     .ok (acc.map fun r => r.map fun y => y + x)
   else .error .broadcast
 
-/-- `matrix_util.calc_fisher_matrix_total`. The second size test of the code repeats the first one
-(the number of weights is never compared), weights are validated completely before anything is
-computed, and the accumulator has the size of the *first probability distribution*. -/
+/-- the accumulation loop of `calc_fisher_matrix_total`: `matrix += weights[index] * calc_fisher_matrix(…)` -/
+def fisherAcc (size : Nat) (eps : K) :
+    List (List K × List (List K)) → List K → List (List K) → Except Err (List (List K))
+  | [], _, acc => .ok acc
+  | _ :: _, [], _ => .error .sizeMismatch           -- `weights[index]` IndexError (excluded by the length test)
+  | (ps, grads) :: r, w :: ws, acc => do
+      let (sv, F) ← fisher ps grads eps
+      let acc' ← accumulate size acc w sv F
+      fisherAcc size eps r ws acc'
+
+/-- `matrix_util.calc_fisher_matrix_total`: the numbers of distributions, gradient lists and weights must
+agree, weights are validated completely before anything is computed, and the accumulator has the size of
+the first gradient vector (the number of variables). -/
 def fisherTotal (pss : List (List K)) (gradss : List (List (List K))) (ws : List K) (eps : K) :
-    Except Err (Nat × List (List K)) := do
-  if pss.length ≠ gradss.length then throw .sizeMismatch
-  if ws.any (fun w => decide (w < 0)) then throw .weightNeg
-  match pss with
-  | [] => throw .empty
-  | p0 :: _ =>
-    let size := p0.length
-    let mut acc : List (List K) := zeroRows size
-    let mut idx : Nat := 0
-    for (ps, grads) in pss.zip gradss do
-      -- `weights[index]` : IndexError when there are fewer weights than distributions
-      match ws[idx]? with
-      | none => throw .sizeMismatch
-      | some w =>
-        let (sv, F) ← fisher ps grads eps
-        acc ← accumulate size acc w sv F
-      idx := idx + 1
-    return (size, acc)
+    Except Err (Nat × List (List K)) :=
+  if pss.length ≠ gradss.length then .error .sizeMismatch
+  else if pss.length ≠ ws.length then .error .sizeMismatch
+  else if ws.any (fun w => decide (w < 0)) then .error .weightNeg
+  else
+    match gradss with
+    | [] => .error .empty
+    | [] :: _ => .error .empty
+    | (g00 :: _) :: _ =>
+      let size := g00.length
+      match fisherAcc size eps (pss.zip gradss) ws (zeroRows size) with
+      | .ok acc => .ok (size, acc)
+      | .error e => .error e
 
 end fisher
 
